@@ -13,7 +13,9 @@ EXPLANATION = (
     'integers). TV validates the encoding against the real class under a controlled clock. R4 (CrossHair, symbolic bytes/offsets) shows the wrapper '
     'returns exactly the underlying data and forwards seek/tell/truncate. R5 models two streams on one limiter with overlapping reads: z3 finds the '
     'schedule in which each stream stays under L and the aggregate is 2L (known finding F9, replayed with two real threads); with that class excluded '
-    '(reads do not overlap) the bound is unsat-proved for 2x3 calls.'
+    '(calls of different streams do not overlap) the bound is unsat-proved for 2x3 calls. R6 covers the multi-stream sub-case in which the property does hold on '
+    'the current code - underlying I/O that takes no time, so no per-call credit exists: RateLimitedIO.pause_reads/pause_writes are lifted as cooperative generators (pre-emption outside '
+    'the lock), 2..4 streams are interleaved by a schedule vector on a virtual clock and every window is checked.'
 )
 ASSUMPTIONS = ['Python float encoded as real numbers (IEEE rounding outside the claim)',
                'time.sleep(s) lasts s + ov with 0 <= ov <= eps = 0.01 s (unbounded oversleep would build unbounded credit; stated, not claimed)',
@@ -35,6 +37,8 @@ def obligations(tier):
         py('R2', 'r2_bmc', f'{k}-call BMC: every window of calls obeys bytes <= L*T + (0.25+eps)*L', f'K={k}, L in {{4,1000,2^20,10^9}}', env={'VT_BMC_K': k}),
         py('R3', 'r3_chunk_sites', 'chunk size chosen by snapshot/restore/upload/download satisfies 1 <= size <= L/4', 'L >= 4, N >= 1 unbounded integers'),
         py('R5', 'r5_streams', 'two streams sharing the limiter: aggregate bound', '2 streams x 3 calls, L=1000', known={'F9': _known_f9}),
+        Ob('R6', 'E', 'N streams with instantaneous I/O (no per-call credit): window bound under every interleaving of the pause sections; pause methods lifted as cooperative generators, virtual clock',
+           'read/write x 2..4 streams x 4^4 schedule patterns x 6 calls each = 1536', FN[2:], module=H, func='r6_streams_instant', timeout=900, shards=4),
         Ob('R4.r', 'S', 'reads through the wrapper return exactly the underlying bytes in order', 'symbolic returned bytes <= 3 (two reads), symbolic sizes',
            [FN[0]], module=H, func='r4_read', timeout=600),
         Ob('R4.w', 'S', 'write/seek/truncate/tell through the wrapper act on the underlying stream', 'symbolic payload <= 3 bytes, unbounded offset/whence/cut/return values',
